@@ -55,7 +55,9 @@ LIFE_SHAPES_Q = [
     ("DE", "DE"), ("SEA", "CMAf"), ("SHADE", "LOC"), ("LHS", "SOB"), ("MWEA", "CMAw"), ("GA", "SHADE"),
     ("DE", "SEA", "DE"), ("SEA", "DE", "CMAf"), ("LHS", "SOB", "DE"), ("SEAX", "CMAs", "LOC"), ("DEd", "SEAA", "SHADE"),
     ("STUB", "DE"), ("DE", "STUBEA"), ("SEA", "STUBEA", "STUB"), ("STUBEA", "STUB", "CMAw"),
+    ("SEA", "LOC"), ("DE", "LOC"), ("SOB", "CMAf", "LOC"), ("GA", "CMAs"),
 ]
+FLAT_FOR = {("SEA", "LOC"): "plateau", ("DE", "LOC"): "const", ("SOB", "CMAf", "LOC"): "plateau", ("GA", "CMAs"): "const"}
 
 
 def baseline_points(desc, monitor_classes=(), shim_factory=None):
@@ -75,7 +77,7 @@ def split_units(desc, bound, kinds, extra=None, shim_factory=None):
     return us
 
 
-def lifecycle_descs(tier, seed, hib_values=(False, True), objs=("twofunnel",), maximize=(False,)):
+def lifecycle_descs(tier, seed, hib_values=(False, True), objs=("twofunnel", "plateau", "sphere_in", "const"), maximize=(False, True)):
     s = 1 + seed % 1000
     out = []
     # (a) complete enumeration over L and S choices: small worlds
@@ -97,7 +99,7 @@ def lifecycle_descs(tier, seed, hib_values=(False, True), objs=("twofunnel",), m
                 lsc = [lscs[(k + j) % len(lscs)] for j in range(len(eng))]
                 gsc = [{"kind": "horizon"}, {"kind": "evals", "n": 60}, {"kind": "horizon"}][k % 3]
                 out.append(("bounded", dict(engines=list(eng), gens=1 + k % 2, Mh=4, hib=hib, seed=s, choices="GLS", lsc=lsc,
-                                            gsc=gsc, maximize=mx, obj=objs[k % len(objs)],
+                                            gsc=gsc, maximize=mx, obj=FLAT_FOR.get(tuple(eng), objs[k % len(objs)]),
                                             sprout={"kind": "scripted", "L": L, "default": 1 + (k % 2), "demelimit": dl})))
                 k += 1
     return out
